@@ -321,6 +321,30 @@ pub fn run(args: &Args) -> i32 {
         check_pattern(&sig, &few_rot, true, json!({"family": "pad-gaps", "column": col, "first_row": r0, "pad_amplitudes": amps, "rows_without_data_mask": d[0]}), loc);
     });
 
+    // F7c: pad clusters at the two ends of the detector (rows 0.. and ..575), where the sliding window starts and stops
+    rep.run("pad-clusters-at-the-ends", 12 * 3 * 2, 600, true, "one wire avalanche and a 3-row pad cluster centred on row {0, 1, 2, 3, 4, 5} and {570..575} (clipped at the ends) x 3 amplitude profiles x 2 columns: rotations + mirror", |idx, loc| {
+        let d = unrank(idx, &[12, 3, 2]);
+        let centre: i64 = if d[0] < 6 { d[0] as i64 } else { 570 + (d[0] as i64 - 6) };
+        let amps = [[40.0, 100.0, 55.0], [100.0, 60.0, 30.0], [30.0, 60.0, 100.0]][d[1] as usize];
+        let col = [5usize, 31][d[2] as usize];
+        let mut sig = Signals::default();
+        let w = (8 * col + 8 + 4) % 256;
+        for dd in -4i64..=4 {
+            let ww = (w as i64 + dd).rem_euclid(256) as usize;
+            let s = sig.wires.entry(ww).or_insert_with(|| vec![0.0; 120]);
+            add_wire_pulse(s, 25, 120.0 * NEIGHBOR[dd.unsigned_abs() as usize]);
+        }
+        for (i, q) in amps.iter().enumerate() {
+            let row = centre - 1 + i as i64;
+            if (0..576).contains(&row) {
+                let mut s = vec![0.0; 120];
+                add_pad_pulse(&mut s, 25, *q);
+                sig.pads.insert((col, row as usize), s);
+            }
+        }
+        check_pattern(&sig, &few_rot, true, json!({"family": "pad-clusters-at-the-ends", "column": col, "centre_row": centre, "pad_amplitudes": amps}), loc);
+    });
+
     // F8: hook-free variant: the same relation through spec-conformant banks and the public API only
     rep.run("through-banks", if thorough { 12 } else { 4 }, 600, true, "lattice events and a seam-straddling block digitised and packed into banks (simulation run: uniform calibration), rotated / mirrored by re-encoding through the inverse channel maps: MainEvent::try_from_banks + avalanches() only", |idx, loc| {
         let m = maps();
